@@ -468,6 +468,12 @@ def main(argv=None):
             ck.evaluations += 1
         ck.count("ms-floor-exhaustive", 10**6 // step)
 
+    # ---- (4) histories: sequences of constructions / assignments / round trips in one process, look-alike timestamps.
+    # Each session runs in a process forked from the pristine snapshot, so its findings are self-contained scripts; they
+    # are looked for before the single cases below, which all share this process
+    hterms, hwires, hdescs = c13_hist.run(ck, hist_runner)
+    hist_runner.close()
+
     # ---- (1) event cases
     cases = gen_event_cases(rng, 60000 if thorough else 2500)
     impl = []
@@ -519,10 +525,6 @@ def main(argv=None):
         # oracle (C01's codec clause, for the unchanged helper functions): exact round trip below 2^52
         if ts + dur < 2**52 and w != [0, ts, dur]:
             ck.failing_input("C13:sqlite-codec", f"sqlite helpers: ({ts},{dur}) read back as {w}", {"ts_us": ts, "dur_us": dur})
-
-    # ---- (4) histories: sequences of constructions / assignments / round trips in one process, look-alike timestamps
-    hterms, hwires, hdescs = c13_hist.run(ck, hist_runner)
-    hist_runner.close()
 
     if proved:
         try:
